@@ -190,6 +190,7 @@ func main() {
 	for n, i := range idx {
 		fmt.Fprintf(out, "B %d\n", i)
 		out.Flush()
+		runNo = n + 1
 		rs := runSeed(*seed, *prop, i)
 		simrt.ResetRunStats()
 		simrt.Seed(rs)
